@@ -33,33 +33,47 @@ static struct { void *p; size_t n; } led[LEDGER_MAX];
 static int led_n;
 static long led_bytes, led_total;
 static unsigned long led_serial;
-static pthread_mutex_t led_mu = PTHREAD_MUTEX_INITIALIZER;
 int ledger_fail_after = -1;
+/* The ledger's own lock must not be visible to ThreadSanitizer: a pthread mutex taken on every library allocation would
+ * order the threads of engine T at each malloc/free (release -> acquire), and TSan would then miss conflicting accesses in
+ * the library that no lock *of the library* orders. So: a spin lock in inline assembly, and no instrumentation of the
+ * ledger's own accesses (they are protected by that lock). */
+#if defined(__SANITIZE_THREAD__)
+#define NO_TSAN __attribute__((no_sanitize_thread, noinline))
+#else
+#define NO_TSAN
+#endif
+static volatile int led_lock;
+static NO_TSAN void led_acquire(void)
+{
+    for (;;) { int old = 1; __asm__ __volatile__("xchgl %0, %1" : "+r"(old), "+m"(led_lock) : : "memory"); if (!old) return; __asm__ __volatile__("pause"); }
+}
+static NO_TSAN void led_release(void) { __asm__ __volatile__("" : : : "memory"); led_lock = 0; }
 
-static void led_add(void *p, size_t n)
+static NO_TSAN void led_add(void *p, size_t n)
 {
     if (!p) return;
-    pthread_mutex_lock(&led_mu);
+    led_acquire();
     if (led_n < LEDGER_MAX) { led[led_n].p = p; led[led_n].n = n; led_n++; }
     led_bytes += (long)n; led_total++; led_serial++;
-    pthread_mutex_unlock(&led_mu);
+    led_release();
 }
-static int led_del(void *p)
+static NO_TSAN int led_del(void *p)
 {
     int found = 0;
-    pthread_mutex_lock(&led_mu);
+    led_acquire();
     for (int i = led_n - 1; i >= 0; i--)
         if (led[i].p == p) { led_bytes -= (long)led[i].n; led[i] = led[led_n - 1]; led_n--; found = 1; break; }
-    pthread_mutex_unlock(&led_mu);
+    led_release();
     return found;
 }
-long ledger_count(void) { return led_n; }
-long ledger_bytes(void) { return led_bytes; }
-long ledger_allocs_total(void) { return led_total; }
-unsigned long ledger_mark(void) { return led_serial; }
-int ledger_has(const void *p) { for (int i = led_n - 1; i >= 0; i--) if (led[i].p == p) return 1; return 0; }
-long ledger_size_of(const void *p) { for (int i = led_n - 1; i >= 0; i--) if (led[i].p == p) return (long)led[i].n; return -1; }
-void ledger_dump(char *buf, size_t n)
+NO_TSAN long ledger_count(void) { return led_n; }
+NO_TSAN long ledger_bytes(void) { return led_bytes; }
+NO_TSAN long ledger_allocs_total(void) { return led_total; }
+NO_TSAN unsigned long ledger_mark(void) { return led_serial; }
+NO_TSAN int ledger_has(const void *p) { for (int i = led_n - 1; i >= 0; i--) if (led[i].p == p) return 1; return 0; }
+NO_TSAN long ledger_size_of(const void *p) { for (int i = led_n - 1; i >= 0; i--) if (led[i].p == p) return (long)led[i].n; return -1; }
+NO_TSAN void ledger_dump(char *buf, size_t n)
 {
     size_t o = 0; buf[0] = 0;
     for (int i = 0; i < led_n && o + 32 < n; i++) o += (size_t)snprintf(buf + o, n - o, "%zu ", led[i].n);
